@@ -21,8 +21,10 @@ func Run(c *hx.Ctx) {
 	}
 	witnesses(c)
 	families(c)
+	straddle(c)
 	random(c)
 	correspondence(c)
+	imgRdFamilies(c) // reading side over image bytes (imgrd.go)
 }
 
 type caseOut struct {
@@ -468,4 +470,51 @@ func random(c *hx.Ctx) {
 		checkCase(c, id, root, cf)
 	}
 	_ = os.Getpid
+}
+
+// straddle: inode tables of more than one 8 KiB metadata block. n small files come first in the walk order, then a
+// file with a long block list, so that the big file's inode — its fixed part, or some part of its block list —
+// lies across a metadata block boundary; n sweeps the boundary (the other shapes keep the inode table within one
+// metadata block). The directory table stays below the recorded sqfs-dir-startblock-index trigger (short names).
+func straddle(c *hx.Ctx) {
+	r := hx.NewRng(c.Seed*104729 + 11)
+	type shape struct {
+		bs     int64
+		blocks int
+		lo, hi int // range of n
+	}
+	shapes := []shape{{4096, 300, 100, 160}, {4096, 40, 130, 270}, {8192, 150, 120, 270}}
+	for si, sh := range shapes {
+		var ns []int
+		if c.Thorough() {
+			for n := sh.lo; n <= sh.hi; n++ {
+				ns = append(ns, n)
+			}
+		} else {
+			for k := 0; k < 8; k++ {
+				ns = append(ns, sh.lo+r.Intn(sh.hi-sh.lo+1))
+			}
+		}
+		for _, n := range ns {
+			id := fmt.Sprintf("st/%d-%d", si, n)
+			comp := hx.Pick(r, []string{"none", "gzip", "gzip"})
+			kind := hx.Pick(r, []string{"rep", "mixed", "zero"})
+			tail := r.Intn(int(sh.bs))
+			if !c.Want(id) {
+				continue
+			}
+			root := mkdir(".")
+			for i := 0; i < n; i++ {
+				root.add(file(r, fmt.Sprintf("a%03d", i), "rep", i%23))
+			}
+			root.add(file(r, "zbig", kind, sh.blocks*int(sh.bs)+tail))
+			root.add(file(r, "zc", "rand", 10))
+			root.add(file(r, "zd", "rep", 3*int(sh.bs)+1))
+			if root.dirTableBytes() > 7000 {
+				continue
+			}
+			c.Stat("shape.inode-straddle")
+			checkCase(c, id, root, cfg{comp: comp, bs: sh.bs, cache: -1, cwdWS: true, noFrag: r.Chance(30)})
+		}
+	}
 }
